@@ -313,7 +313,7 @@ namespace link_layer {
                         return true;
                     }
 
-                    link_layer.defered_ll_control_pdu_     = pdu;
+                    link_layer.defer_ll_control_pdu( pdu );
                     link_layer.defered_conn_event_counter_ = ::bluetoe::details::read_16bit( pdu_body + 3 );
 
                     return true;
@@ -756,6 +756,12 @@ namespace link_layer {
          */
         bool instant_passed( std::uint16_t instant ) const;
 
+        /*
+         * keeps a copy of the given PDU until its instant; the PDU itself is in the receive buffer
+         * and that part of the receive buffer is released, once the PDU was handled.
+         */
+        void defer_ll_control_pdu( const write_buffer& pdu );
+
         connection_details details() const;
 
         static constexpr unsigned       first_advertising_channel   = 37;
@@ -844,6 +850,9 @@ namespace link_layer {
         delta_time                      procedure_timeout_;
         std::uint16_t                   defered_conn_event_counter_;
         write_buffer                    defered_ll_control_pdu_;
+        // copy of the defered PDU; the largest PDU with an instant is LL_CONNECTION_UPDATE_IND
+        static constexpr std::size_t    maximum_defered_ll_payload_size = 12u;
+        std::uint8_t                    defered_ll_control_pdu_buffer_[ layout_t::data_channel_pdu_memory_size( maximum_defered_ll_payload_size ) ];
         connection_data_t               connection_data_;
         bool                            termination_send_;
         std::uint16_t                   used_features_;
@@ -1576,7 +1585,7 @@ namespace link_layer {
                 }
                 else
                 {
-                    defered_ll_control_pdu_ = pdu;
+                    defer_ll_control_pdu( pdu );
                 }
             }
             else if ( opcode == LL_TERMINATE_IND && size == 2 )
@@ -1615,7 +1624,7 @@ namespace link_layer {
                 }
                 else
                 {
-                    defered_ll_control_pdu_ = pdu;
+                    defer_ll_control_pdu( pdu );
                 }
             }
             else if ( opcode == LL_PING_REQ && size == 1 )
@@ -1760,6 +1769,15 @@ namespace link_layer {
         }
 
         return result;
+    }
+
+    template < class Server, template < std::size_t, std::size_t, class > class ScheduledRadio, typename ... Options >
+    void link_layer< Server, ScheduledRadio, Options... >::defer_ll_control_pdu( const write_buffer& pdu )
+    {
+        assert( pdu.size <= sizeof( defered_ll_control_pdu_buffer_ ) );
+
+        std::copy( pdu.buffer, pdu.buffer + pdu.size, &defered_ll_control_pdu_buffer_[ 0 ] );
+        defered_ll_control_pdu_ = write_buffer{ &defered_ll_control_pdu_buffer_[ 0 ], pdu.size };
     }
 
     template < class Server, template < std::size_t, std::size_t, class > class ScheduledRadio, typename ... Options >
